@@ -52,6 +52,21 @@ pub fn replay(case: &Value) -> Result<Option<String>, String> {
         let recs: Vec<Vec<Vec<u8>>> = case["samples"].as_array().ok_or("samples")?.iter().map(|s| s.as_array().unwrap().iter().map(|r| r.as_str().unwrap().as_bytes().to_vec()).collect()).collect();
         return Ok(cli_case(&recs, case["k"].as_u64().unwrap() as usize, case["rc"].as_bool().unwrap()).err());
     }
+    if case.get("cli_pair").is_some() {
+        let f = |n: &str| -> Vec<Vec<u8>> { case[n].as_array().map(|a| a.iter().map(|r| r.as_str().unwrap_or("").as_bytes().to_vec()).collect()).unwrap_or_default() };
+        return Ok(cli_pair_case(&f("file1"), &f("file2"), case["k"].as_u64().ok_or("k")? as usize, case["rc"].as_bool().ok_or("rc")?).err());
+    }
+    if case.get("pair").is_some() {
+        let f = |n: &str| -> Vec<Vec<u8>> { case[n].as_array().map(|a| a.iter().map(|r| r.as_str().unwrap_or("").as_bytes().to_vec()).collect()).unwrap_or_default() };
+        let (f1, f2) = (f("file1"), f("file2"));
+        let (k, rc, wide) = (case["k"].as_u64().ok_or("k")? as usize, case["rc"].as_bool().ok_or("rc")?, case["wide"].as_bool().ok_or("wide")?);
+        let both: Vec<Vec<u8>> = f1.iter().chain(f2.iter()).cloned().collect();
+        let want = build(&both, k, rc);
+        let p1 = scratch::write("c01_f1.fa", &scratch::fasta(&f1));
+        let p2 = scratch::write("c01_f2.fa", &scratch::fasta(&f2));
+        let got = if wide { crate::real::build_dict_pair::<u128>(&p1, &p2, k, rc) } else { crate::real::build_dict_pair::<u64>(&p1, &p2, k, rc) };
+        return Ok(agree(&got, &want).err().map(|e| format!("one sample built from two files: {e}")));
+    }
     let records: Vec<Vec<u8>> = case["records"].as_array().ok_or("records")?.iter().map(|r| r.as_str().unwrap().as_bytes().to_vec()).collect();
     let k = case["k"].as_u64().ok_or("k")? as usize;
     let rc = case["rc"].as_bool().ok_or("rc")?;
@@ -117,6 +132,37 @@ pub fn cli_case(samples: &[Vec<Vec<u8>>], k: usize, rc: bool) -> Result<(), Stri
     }
     if nk.kmers != t.rows.len() || nk.sample_kmers != t.sample_counts() {
         return Err(format!("nk counts: k-mers={} sample_kmers={:?}, model {} {:?}", nk.kmers, nk.sample_kmers, t.rows.len(), t.sample_counts()));
+    }
+    Ok(())
+}
+
+/// `ska build -f list` where the list names two files for the one sample (name, file1, file2): against the model of the
+/// concatenated records, through `ska nk --full-info`.
+pub fn cli_pair_case(f1: &[Vec<u8>], f2: &[Vec<u8>], k: usize, rc: bool) -> Result<(), String> {
+    let dir = scratch::path("c01clip");
+    let _ = std::fs::remove_dir_all(&dir);
+    std::fs::create_dir_all(&dir).unwrap();
+    std::fs::write(format!("{dir}/chrom.fa"), scratch::fasta(f1)).unwrap();
+    std::fs::write(format!("{dir}/plasmid.fa"), scratch::fasta(f2)).unwrap();
+    std::fs::write(format!("{dir}/list.txt"), "both\tchrom.fa\tplasmid.fa\n").unwrap();
+    let ks = k.to_string();
+    let mut a = vec!["build", "-k", &ks, "-o", "out", "-f", "list.txt"];
+    if !rc {
+        a.push("--single-strand");
+    }
+    let both: Vec<Vec<u8>> = f1.iter().chain(f2.iter()).cloned().collect();
+    let t = Table::from_samples(k, rc, &["both".to_string()], &[both]);
+    let b = cli::run(&a, &dir, None);
+    if b.code != 0 {
+        return Err(format!("ska build -f (two files for one sample) failed: {}", String::from_utf8_lossy(&b.stderr).chars().rev().take(200).collect::<String>().chars().rev().collect::<String>()));
+    }
+    let n = cli::run(&["nk", "--full-info", "out.skf"], &dir, None);
+    if n.code != 0 {
+        return Err("ska nk failed on a freshly built file".into());
+    }
+    let nk = cli::parse_nk(&n.stdout)?;
+    if nk.names != vec!["both".to_string()] || nk.rows != t.rows {
+        return Err(format!("two files for one sample: nk lists names {:?} and {} k-mers, the model of both files together has {} (or middle bases differ)", nk.names, nk.rows.len(), t.rows.len()));
     }
     Ok(())
 }
@@ -422,6 +468,51 @@ pub fn run(ctx: &Ctx, rep: &mut Report) {
         }
     }
 
+    // (f) one sample given as TWO sequence files (chromosome + plasmids): the entry of a split k-mer is the union of
+    // the middle bases seen in both files. Arms (incl. self-reverse-complement ones), every pair of middle-base subsets
+    // (file 1 x file 2, 16 x 16), file 2 forward or reverse-complemented, both strand modes, both widths.
+    if !capped {
+        let k = 5usize;
+        let arms: [(&[u8], &[u8]); 4] = [(b"AC", b"GT"), (b"AA", b"CG"), (b"GT", b"TA"), (b"CA", b"TG")];
+        for (ai, (l, r)) in arms.iter().enumerate() {
+            for s1 in 0u32..16 {
+                for s2 in 0u32..16 {
+                    for flip2 in [false, true] {
+                        idx += 1;
+                        if !ctx.mine(idx) {
+                            continue;
+                        }
+                        let recs_of = |set: u32, flip: bool, filler: &[u8]| -> Vec<Vec<u8>> {
+                            let mut v: Vec<Vec<u8>> = b"ACGT".iter().enumerate().filter(|(i, _)| set >> i & 1 == 1).map(|(_, m)| [*l, &[*m][..], *r].concat()).map(|x| if flip { rc_str(&x) } else { x }).collect();
+                            v.push(filler.to_vec());
+                            v
+                        };
+                        let f1 = recs_of(s1, false, b"GGGGA");
+                        let f2 = recs_of(s2, flip2, b"CCTCC");
+                        let both: Vec<Vec<u8>> = f1.iter().chain(f2.iter()).cloned().collect();
+                        for rc in [true, false] {
+                            for wide in [false, true] {
+                                rep.evaluations += 1;
+                                rep.nontrivial += 1;
+                                let want = build(&both, k, rc);
+                                rep.outcome(&want);
+                                let p1 = scratch::write("c01_f1.fa", &scratch::fasta(&f1));
+                                let p2 = scratch::write("c01_f2.fa", &scratch::fasta(&f2));
+                                let got = if wide { crate::real::build_dict_pair::<u128>(&p1, &p2, k, rc) } else { crate::real::build_dict_pair::<u64>(&p1, &p2, k, rc) };
+                                if let Err(e) = agree(&got, &want) {
+                                    let j = |v: &Vec<Vec<u8>>| v.iter().map(|r| String::from_utf8_lossy(r).to_string()).collect::<Vec<_>>();
+                                    rep.violate(format!("two-file sample arms={ai} file1={:?} file2={:?} rc={rc} wide={wide}", j(&f1), j(&f2)), format!("one sample built from two files: {e}"), json!({"pair": true, "file1": j(&f1), "file2": j(&f2), "k": k, "rc": rc, "wide": wide}));
+                                }
+                            }
+                        }
+                        rep.corner("sample_from_two_files");
+                    }
+                }
+            }
+        }
+        rep.completed.push("(f) k=5 one sample from two files: 4 arms x 16 x 16 middle-base subsets x file-2 orientation x strand mode x width".into());
+    }
+
     // CLI: build + nk report format and per-sample counts
     if !capped {
         let ks: Vec<usize> = if thorough { ALL_K.to_vec() } else { vec![5, 7, 31, 33, 63] };
@@ -435,6 +526,24 @@ pub fn run(ctx: &Ctx, rep: &mut Report) {
                 vec![vec![base.clone()], vec![mutated.clone()]],
                 vec![vec![base[..k].to_vec(), b"NN".to_vec()], vec![rc_str(&mutated)], vec![base[1..].to_vec(), mutated[..k + 1].to_vec()]],
             ];
+            // the same sample given as chromosome + plasmid files; the plasmid carries two further alleles of one split
+            // k-mer of the chromosome
+            for rc in [true, false] {
+                idx += 1;
+                if ctx.mine(idx) {
+                    let mut m2 = base.clone();
+                    m2[h + 1] = crate::engines::lo::alt_base(base[h + 1], 1);
+                    let m2 = if m2 == mutated { let mut x = base.clone(); x[h + 1] = crate::engines::lo::alt_base(base[h + 1], 2); x } else { m2 };
+                    let (f1, f2) = (vec![base.clone()], vec![rc_str(&mutated[..k + 1]), m2[..k + 2].to_vec()]);
+                    rep.evaluations += 1;
+                    rep.nontrivial += 1;
+                    rep.corner("cli_build_two_files_one_sample");
+                    if let Err(e) = cli_pair_case(&f1, &f2, k, rc) {
+                        let j = |v: &Vec<Vec<u8>>| v.iter().map(|r| String::from_utf8_lossy(r).to_string()).collect::<Vec<_>>();
+                        rep.violate(format!("cli two-file sample k={k} rc={rc}"), e, json!({"cli_pair": true, "file1": j(&f1), "file2": j(&f2), "k": k, "rc": rc}));
+                    }
+                }
+            }
             for samples in sample_sets {
                 for rc in [true, false] {
                     idx += 1;
